@@ -22,6 +22,7 @@
 -/
 import IocProofs.Lemmas.ConcPaths
 import IocProofs.Lemmas.ConcMap
+import IocProofs.Lemmas.SemSync2
 
 namespace Ioc.C20
 open Ioc.Conc
@@ -282,5 +283,29 @@ example : (run factProgs (Sys.start emptyMap (fun t => if t = 0 then [.store 1 5
 
 -- the checker accepts a linearizable overlapping history
 example : linearizableB emptyMap [⟨.store 1 5, .unit, 0, 3⟩, ⟨.load 1, .got (some 5) true, 1, 2⟩] = true := by decide
+
+/-! ### the tie to the code: sync2.Map.Load / LoadOrStoreFn (regenerated), one caller at a time
+
+`Ioc.Progs.sync2_Load` / `Ioc.Progs.sync2_LoadOrStoreFn` are the syntax trees of the two methods of util/sync2/map.go,
+re-translated from /repo's source on every run (MiniGo, Ioc.GoSem; named results and the bare `return` included).  With the
+underlying sync.Map read as an association list whose `Load` / `LoadOrStore` are atomic primitives: `Load` is the lookup;
+`LoadOrStoreFn` returns the stored value WITHOUT running the constructor when the key is present, and otherwise runs it
+exactly once and finishes with the atomic `LoadOrStore` (the repair of D14 — the seeded changes C20B and C20C rewrote this
+function).  What concurrent callers can observe on top of this is the interleaving model above
+(`C20_loadOrStoreFn_linearizable`, built from the regenerated primitive sequence). -/
+
+theorem C20_code_Load (fv k : Nat) (w : Sem.MapW) :
+    Go.run (Sem.mapBase fv) Progs.sync2_Load [.int k] w =
+      some (match alookup k w.m with
+            | some v => .tuple [.int v, .bool true]
+            | none => .tuple [.nil, .bool false], w) :=
+  Sem.sync2_load_sem fv k w
+
+theorem C20_code_LoadOrStoreFn (fv k : Nat) (w : Sem.MapW) :
+    Go.run (Sem.mapPrims fv) Progs.sync2_LoadOrStoreFn [.int k, .ref 0 30] w =
+      some (match alookup k w.m with
+            | some v => (.tuple [.int v, .bool true], w)
+            | none => (.tuple [.int fv, .bool false], { m := ainsert k fv w.m, fCalls := w.fCalls + 1 })) :=
+  Sem.sync2_loadOrStoreFn_sem fv k w
 
 end Ioc.C20
